@@ -46,7 +46,7 @@ PLANS = {
     },
     "C05": {
         "level": "other",
-        "sidecars": ["bonds", "debump", "quatfit", "tetra", "repair"],
+        "sidecars": ["bonds", "debump", "quatfit", "tetra", "repair", "residues"],
         "extras": [{"name": "c04_torsion_rank_table", "module": "tables.x_checks", "func": "c04_torsion_ranks", "python": "vt"},
                    {"name": "c05_geometry", "module": "bounded.c05_geometry", "func": "run", "python": "venv"}],
         "explanation": "Contracts decide only the placement mechanism: the fitted placement is a rigid motion of the "
@@ -153,7 +153,7 @@ PLANS = {
     },
     "C14": {
         "level": "proof",
-        "sidecars": ["cells", "cellproto", "debump"],
+        "sidecars": ["cells", "cellproto", "debump", "residues"],
         "extras": [{"name": "c14_protocol", "module": "bounded.c14_protocol", "func": "run", "python": "venv"},
                    {"name": "c14_thresholds", "module": "tables.c14_thresholds", "func": "run", "python": "vt"}],
         "explanation": "contracts on Cells.add_cell/remove_cell/get_near_cells and the tiling lemma (also for re-added atoms "
